@@ -87,6 +87,7 @@ def run(ctx):
     r153(ctx)
     r154_inverse_pairs(ctx, dists)
     r155_density_is_derivative(ctx, dists)
+    r156_erf_inv_centres(ctx)
     # a sampler that leaves the declared support cannot follow the declared density: the range part of C14 (draws within the
     # sign / bound support, discrete uniform within [lo, hi]) is a necessary condition of "samples follow the density"
     from . import c14
@@ -273,3 +274,56 @@ def r155_density_is_derivative(ctx, dists):
                         f'the density `{short(prs[0].value, 60)}` is not the derivative of the cumulative distribution function `{short(crs[0].value, 60)}`: '
                         f'd/dx cdf = `{str(d)[:140]}` but pdf = `{str(pe)[:140]}` (density and cdf describe different distributions)', where=f'{dcp.name}.probability_density')
     ctx.floor('R15.5', 'density / cdf pairs decided', decided, 3)
+
+
+def r156_erf_inv_centres(ctx):
+    """R15.6: each rational piece of erf_inv is evaluated at t = ax*ax - b*b with b the upper end of the piece's own interval"""
+    from fractions import Fraction
+    prog = ctx.prog
+    ctx.rule('R15.6', 'erf_inv: every piece `t = ax * ax - K` uses K = (upper end of the piece\'s interval)**2 exactly, so neighbouring pieces meet where the guards say')
+    if 'erf_inv' not in prog.funcs:
+        raise AnalysisError('anchor vanished: utils.erf_inv')
+    mod, fn = prog.funcs['erf_inv']
+
+    def num(e):
+        if isinstance(e, ast.Constant) and isinstance(e.value, (int, float)) and not isinstance(e.value, bool):
+            return Fraction(repr(e.value)) if isinstance(e.value, float) else Fraction(e.value)
+        if isinstance(e, ast.BinOp) and isinstance(e.op, (ast.Mult, ast.Add, ast.Sub, ast.Pow)):
+            a, b = num(e.left), num(e.right)
+            if a is None or b is None:
+                return None
+            if isinstance(e.op, ast.Mult):
+                return a * b
+            if isinstance(e.op, ast.Add):
+                return a + b
+            if isinstance(e.op, ast.Sub):
+                return a - b
+            return a ** int(b) if b.denominator == 1 and 0 <= b <= 4 else None
+        return None
+    n = 0
+    cur = None
+    for st in ast.walk(fn):
+        if not isinstance(st, ast.If):
+            continue
+        # upper bound of the guard: `ax <= b` or `a <= ax <= b`
+        test = st.test
+        ub = None
+        if isinstance(test, ast.Compare) and all(isinstance(o, (ast.LtE, ast.Lt)) for o in test.ops):
+            ub = num(test.comparators[-1])
+            var = unparse(test.comparators[-2]) if len(test.comparators) > 1 else unparse(test.left)
+        if ub is None:
+            continue
+        for a in st.body:
+            if isinstance(a, ast.Assign) and isinstance(a.value, ast.BinOp) and isinstance(a.value.op, ast.Sub) \
+                    and unparse(a.value.left) in (f'{var} * {var}', f'{var} ** 2'):
+                k = num(a.value.right)
+                n += 1
+                ctx.examined()
+                ok = k is not None and k == ub * ub
+                ctx.ob('R15.6', f'erf_inv:{float(ub)}', ok, sample=f'erf_inv piece up to {float(ub)}: `{short(a)}`; centre {float(k) if k is not None else "?"} == {float(ub * ub)}: {ok}')
+                if not ok:
+                    ctx.finding('R15.6', f'erf_inv:centre:{float(ub)}', None, a,
+                                f'the piece of erf_inv for {var} <= {float(ub)} is evaluated at `{short(a.value)}`, but its expansion point is {float(ub)}**2 = {float(ub * ub)}: '
+                                'the approximation is shifted on that interval (accuracy lost, erf_inv jumps at the boundary, cdf and inverse cdf no longer inverse to 1e-8)',
+                                module=mod, where='utils.erf_inv')
+    ctx.floor('R15.6', 'rational pieces of erf_inv with a centre', n, 2)
